@@ -82,7 +82,7 @@ impl Prop for C07 {
         shrink_case(case)
     }
     fn rule() -> String {
-        format!("(systematic part) every located field of a fixed list of 20 seed images (first the everything-at-once image: one track per kind, every metadata and layout variant, a leading free box in every container; two regular files continued by fragments) x 13 boundary values, one substitution per run (thorough: all {} (image, field, value) triples; quick: the first 50 000), then coordinated pairs: the size of every leaf box and one of its first three words inflated together (4 x 5 values; thorough: all {} pairs, quick: the first 10 000), then {} vacuous-ancestor cases on images whose boxes all have 64-bit headers (the outermost or every enclosing box claims a size with the top bit set while a leaf lies about its size and a count); {}", crate::modee::sweep_total(), crate::modee::pair_total(), crate::modee::vac_total(), "(seeded part) same storage-fault campaign as C06 (own case stream), stream in full-transfer mode so stream calls = library calls; per API call: stream calls <= 10000 + 64n and bytes moved <= 1 MiB + 64n (n = image length; the unchanged tree peaks at 3.0 calls and 1.5 bytes per input byte over 35 million cases, the analytical ceiling for any input is about 32 calls per byte), accessors make no stream call; a call burning > 0.5 s of CPU time per started MiB of input (15x the heaviest legitimate call observed) on an image <= 8 MiB in three executions is a CPU stall; a call that never returns is caught by the supervisor heartbeat; distinct_nontrivial = distinct (fault kind, box path:field, outcome class) triples")
+        format!("(systematic part) every located field of a fixed list of 20 seed images (first the everything-at-once image: one track per kind, every metadata and layout variant, a leading free box in every container; two regular files continued by fragments) x 13 boundary values, one substitution per run (thorough: all {} (image, field, value) triples; quick: the first 50 000), then coordinated pairs: the size of every leaf box and one of its first three words inflated together (4 x 5 values; thorough: all {} pairs, quick: the first 10 000), then {} vacuous-ancestor cases on images whose boxes all have 64-bit headers (one enclosing box, or every enclosing box, claims a size with the top bit set while a leaf lies about its size and a count); {}", crate::modee::sweep_total(), crate::modee::pair_total(), crate::modee::vac_total(), "(seeded part) same storage-fault campaign as C06 (own case stream), stream in full-transfer mode so stream calls = library calls; per API call: stream calls <= 10000 + 64n and bytes moved <= 1 MiB + 64n (n = image length; the unchanged tree peaks at 3.0 calls and 1.5 bytes per input byte over 35 million cases, the analytical ceiling for any input is about 32 calls per byte), accessors make no stream call; a call burning > 0.5 s of CPU time per started MiB of input (15x the heaviest legitimate call observed) on an image <= 8 MiB in three executions is a CPU stall; a call that never returns is caught by the supervisor heartbeat; distinct_nontrivial = distinct (fault kind, box path:field, outcome class) triples")
     }
     fn assumptions() -> Vec<String> {
         vec![
